@@ -176,6 +176,7 @@ def _run(case, work):
         for p, v in sn['files']:
             files[PATHS[p % 5]] = {'path': PATHS[p % 5], 'content': case['contents'][v % len(case['contents'])],
                                    'mtime_ns': (1_400_000_000 + v * 86400 + p) * 10 ** 9 + (v * 123_456_789 + p) % 999_000_000}
+            files[PATHS[p % 5]]['atime_ns'] = files[PATHS[p % 5]]['mtime_ns'] + (p + 1) * 7_000_000_000
         world.write_tree(src, list(files.values()))
         _Clock.now = _ts(sn['ts'])
 
@@ -306,7 +307,8 @@ def _run(case, work):
                     body, mt = x['files'][f['path']]
                     group.append({'snapshot_name': x['name'], 'snapshot_date': x['ts'].isoformat(sep=' ', timespec='seconds'),
                                   'path': f['path'], 'chunk_count': str(len(f['chunks'])), 'size': len(body),
-                                  'digest': rd.H(body).hex(), 'mtime': _fmt_ns(mt), 'atime': None, 'ctime': None})
+                                  'digest': rd.H(body).hex(), 'mtime': _fmt_ns(mt), 'atime': None, 'ctime': None,
+                                  'recorded': f.get('metadata') or {}})
                 exp_rows.append(group)
             lines = out.split('\n')
             if lines and lines[-1] == '':
@@ -339,6 +341,19 @@ def _run(case, work):
                             return Outcome(fail('list-cell', f'list_files: column {c} is {gc!r}, expected {wc!r} '
                                                 f'(blocks must be newest snapshot first)', column=c), classes, nontrivial)
                 for r in got:
+                    # access and change times cannot be dictated by the harness (the kernel sets them); the true value is
+                    # the one the snapshot recorded, read by the independent reader. Rows are paired through the path cell
+                    for c in ('atime', 'ctime'):
+                        if c in cols and 'path' in cols:
+                            e = [e for e in g if e['path'] == r[cols.index('path')]]
+                            ns = e[0]['recorded'].get(f'st_{c}_ns') if e else None
+                            if ns is None:
+                                continue
+                            classes.append('time-column:' + c)
+                            ok = {_fmt_ns(ns)} | ({_fmt_ns(ns + 1000)} if ns % 10 ** 9 > 999_999_000 else set())
+                            if r[cols.index(c)] not in ok:
+                                return Outcome(fail('list-cell', f'list_files: column {c} of {e[0]["path"]!r} is {r[cols.index(c)]!r}, the '
+                                                    f'snapshot recorded {sorted(ok)[0]!r}', column=c), classes, nontrivial)
                     if 'size' in cols and 'path' in cols:
                         e = [e for e in g if e['path'] == r[cols.index('path')]]
                         if e and not _size_ok(r[cols.index('size')], e[0]['size']):
